@@ -864,7 +864,7 @@ func (x *Exec) appendSlice(st *State, fr *Frame, s *SliceV, more Value) Value {
 				el[so+sl+i] = src.el[mo+i]
 			}
 			st.store[s.cell] = &Tuple{typ: arr.typ, el: el}
-			st.version++
+			st.wlog = append(st.wlog, s.cell.id)
 			if st.written != nil {
 				st.written[s.cell] = true
 			}
